@@ -873,9 +873,19 @@ int main(int argc, char** argv) {
     R.stats["space_cases"] += (long long)cs.size();
     for (size_t k : {(size_t)0, cs.size() / 7, cs.size() / 3, cs.size() / 2, cs.size() - 5}) R.sample(case_json(cs[k]));
   }
+  // A function instance that hit the horizon twice in this shard is not run again here (a systematic hang
+  // would otherwise cost 10 CPU-seconds per remaining case); the skipped cases are counted and make the run
+  // non-exhaustive -- the timeouts themselves are re-run and reported by check.py.
+  std::map<std::string, int> timeouts_of;
   for (size_t k = 0; k < cs.size(); ++k) {
     if (!S.mine((long long)k)) continue;
+    std::string key = fname(cs[k]);
+    if (timeouts_of[key] >= 2) {
+      if (R.stats["skipped_after_timeouts"]++ == 0 || timeouts_of[key] == 2) { R.cap("cases of " + key + " skipped after 2 timeouts in shard " + std::to_string(S.i)); timeouts_of[key] = 3; }
+      continue;
+    }
     Verdict v; run_forked(cs[k], horizon, v);
+    if (v.status == "timeout") timeouts_of[key]++;
     absorb_case(cs[k], v);
   }
   // degenerate exponent 0 (never passed by the converter, PreprocessConstraint(PowConstraint) decides
